@@ -54,3 +54,24 @@ func H_C19_event_table() {
 	verifPar(func() { do(opA, k1) }, func() { do(opB, k2) })
 	verifReach("C19.table.end")
 }
+
+// FileSink shared by concurrent senders and a concurrent Reopen (ghost file system)
+func H_C19_filesink_pairs() {
+	fsInit()
+	s := &FileSink{Path: fsDir, FileName: "audit.log", MaxBytes: nondetInt(), MaxFiles: 1, TimestampOnlyOnRotate: nondetBool()}
+	e1 := &Event{Type: "t", Formatted: map[string][]byte{"json": []byte(nondetString())}}
+	e2 := &Event{Type: "t", Formatted: map[string][]byte{"json": []byte(nondetString())}}
+	ctx := context.Background()
+	if nondetBool() {
+		s.Process(ctx, e1) // the file is already open
+	}
+	k := symLen(0, 1)
+	verifPar(func() { s.Process(ctx, e1) }, func() {
+		if k == 0 {
+			s.Process(ctx, e2)
+		} else {
+			s.Reopen()
+		}
+	})
+	verifReach("C19.filesink.end")
+}
